@@ -39,9 +39,9 @@ def run(ctx: Ctx):
     res = logicobl.obligations(ctx, ['sound_core', 'rules_sound', 'c01_valid_sound'], extra_modules=['Ptx.Props.C09'] + write_obligations.modules)
     names = sorted(n for n, d in data.items() if 'fatal' not in d)
     rng = ctx.rng
-    nargs = ctx.scale(5, 60)
+    nargs = ctx.scale(6, 40)
     ms = ctx.scale(300, 1500)
-    seeds = [0, 1, 2, 3] if not ctx.thorough else list(range(8))
+    seeds = [0, 1, 2, 3] if not ctx.thorough else list(range(6))
     by_seed = collections.defaultdict(list)
     groups = []             # per argument: list of (seed, index in that seed's job list, variant description)
     for lg in names:
@@ -49,7 +49,7 @@ def run(ctx: Ctx):
         for k in range(nargs):
             f = fr[k % len(fr)]
             depth = rng.choice([2, 2, 3]) if not f['quant'] else rng.choice([1, 2, 2])
-            prem, conc = tabrun.rand_argument(rng, depth=depth, **f)
+            prem, conc = (tabrun.schema_argument(rng, depth=min(depth, 2), **f) if k % 2 == 1 else tabrun.rand_argument(rng, depth=depth, **f))
             g = []
             variants = [(prem, 'as-given')]
             if len(prem) > 1:
